@@ -32,6 +32,10 @@ A category that is literally `Total` (`<kernel>-opCatTotal`) clashes with the na
 is outside the domain: such logs are still generated and compared with the model (which reproduces the
 double count, Lean witness `total_double_counts_literal_total_category`), but the oracle does not
 evaluate its CSV clauses on them.
+Masked kernel names: the trace may name a kernel `<a>_[N]_<b> Cmpt Exec` and carry `args.fn_idx`; the table
+name is then the name with the first `[N]` replaced by `str(fn_idx)` (index 0 and the string "0" included).
+The model expands the name (`tableName`, Lean `masked_name_lookup`) and the oracle decides pt_active / counter
+pair / category from the expanded name; grid, random and e2e streams contain such slices.
 Multi-rank runs share the one table: every rank section of the CSV is compared with the recomputation
 from that rank's own exported slices (grid of 2-rank pairs + random 1-3 rank cases).
 """
@@ -55,6 +59,8 @@ LEAN_TARGETS = ["AiuVerif.Props.C11"]
 THEOREMS = [
     "AiuVerif.C11.pt_active_formula",
     "AiuVerif.C11.table_lookup_spec",
+    "AiuVerif.C11.masked_name_lookup",
+    "AiuVerif.C11.unmasked_name_lookup",
     "AiuVerif.C11.counter_pair",
     "AiuVerif.C11.each_kernel_counted_once",
     "AiuVerif.C11.total_is_sum_of_categories",
@@ -71,6 +77,8 @@ THEOREMS = [
 ]
 RULE = ("e2e cases: (a) exhaustive grid: every combination of 7 log-row variants for kernel A x 7 for kernel B "
         "(absent, zero cycles, cycles with category X, cycles with category Y, -NA, ignored row, row without suffix; "
+        "plus every sequence of <= 2 slices over masked names `kM_[N]_x` with args.fn_idx in {absent, 0, 1, 2, '0', 5} x "
+        "two durations against a log listing kM_0_x / kM_1_x / kM_2_x; "
         "this includes the tables without kernel rows / with only zero entries) x every sequence of "
         "<= 2 slices over {A at 1/4, A at exactly 100 %, A over 100 %, B}, plus every ordered pair (and 27 triples) of "
         "rank sequences for 2 (3) ranks sharing one table; (b) random: 0-12 log rows (duplicates, zero "
@@ -193,8 +201,15 @@ def build_trace(case):
     ranks = [scenario.Rank(r, soc, 1_000_000_000.0, case["dev_epochs"][r]) for r in range(len(case["ranks"]))]
     for r, kernels in enumerate(case["ranks"]):
         t = 100.0
-        for name, gap, prep, execd in kernels:
-            t = scenario.kernel(ranks[r], name, t + float(F(gap)), float(F(prep)), float(F(execd)), 2)
+        for k in kernels:
+            name, gap, prep, execd = k[:4]
+            fn = k[4] if len(k) > 4 else None           # args.fn_idx: None | ["i", int] | ["s", str]
+            t0, p, x = t + float(F(gap)), float(F(prep)), float(F(execd))
+            ts5 = [t0, t0, t0 + p, t0 + p + x, t0 + p + x + 2]
+            extra = {"fn_idx": fn[1]} if fn else None
+            ranks[r].dev_event(f"{name} Cmpt Prep", scenario.TID_PREP, ts5, extra)
+            ranks[r].dev_event(f"{name} Cmpt Exec", scenario.TID_EXEC, ts5, extra)
+            t = ts5[4]
         ranks[r].host_event("AIU Roundtrip", 77, 100.0, t + 1)
     return {f"trace_rank_{rk.r}.json": rk.event_list() for rk in ranks}
 
@@ -221,6 +236,9 @@ def run_real(case):
             a = e.get("args", {})
             res["slices"].append({"name": a.get("orig_name", e["name"]), "pid": e["pid"], "ts": F(e["ts"]),
                                   "dur": F(e["dur"]), "hasTS": "TS1" in a,
+                                  "fn": (None if "fn_idx" not in a else
+                                         ["i", a["fn_idx"]] if isinstance(a["fn_idx"], int) and not isinstance(a["fn_idx"], bool)
+                                         else ["s", str(a["fn_idx"])]),
                                   "pt": F(a["pt_active"]) if "pt_active" in a else None})
         elif e.get("ph") == "C" and e.get("name") == "PT Active":
             res["counters"].setdefault(e["pid"], []).append((F(e["ts"]), F(e["args"]["Percent"]), "dur" in e))
@@ -264,6 +282,15 @@ def listing(log):
     return out
 
 
+def table_name(s):
+    """the kernel a slice stands for: a masked name `…[N]…` with args.fn_idx is the kernel whose name has that
+    index in place of the first [N] (whatever the index, 0 included)"""
+    n = s["name"]
+    if "[N]" in n and s["fn"] is not None:
+        n = n.replace("[N]", str(s["fn"][1]), 1)
+    return n
+
+
 def oracle(case, res):
     if res["perr"]:
         return ("util-csv-unreadable", f"categories csv not parsable: {res['perr']}")
@@ -273,7 +300,7 @@ def oracle(case, res):
     ks = kernel_slices(res)
     exp_ctr, per_pid = {}, {}
     for s in ks:
-        k = s["name"][:-len(EXEC) - 1]
+        k = table_name(s)[:-len(EXEC) - 1]
         cyc, cat, amb = lst.get(k, [0, "other", False])
         per_pid.setdefault(s["pid"], []).append((s, cyc, cat, amb))
         if amb:
@@ -386,7 +413,9 @@ def _dyadic(x):
 def model_line(case, res):
     rows = ";".join(f"{enc(r['kernel'])},{'o:' + enc(r['tag'][2:]) if r['tag'].startswith('o:') else r['tag']},{r['cycles']}"
                     for r in parsed_rows(case["log"])) or "-"
-    evs = ";".join(f"{enc(s['name'])},{s['pid']},{rat(s['ts'])},{rat(s['dur'])},{1 if s['hasTS'] else 0}"
+    def fn(s):
+        return "-" if s["fn"] is None else (f"i:{s['fn'][1]}" if s["fn"][0] == "i" else "s:" + enc(s["fn"][1]))
+    evs = ";".join(f"{enc(s['name'])},{s['pid']},{rat(s['ts'])},{rat(s['dur'])},{1 if s['hasTS'] else 0},{fn(s)}"
                    for s in res["slices"]) or "-"
     return f"c11 {rat(F(case['core']))} {0 if '-t' in case['argv'] else 1} {rows} {evs}"
 
@@ -482,6 +511,16 @@ def gen_grid(ctx: Ctx):
         n += 1
         yield {"soc": 512, "core": 1024, "argv": [], "dev_epochs": [512 * 7, 512 * 1001, 512 * 77], "log": log,
                "ranks": [[list(x) for x in sa], [list(x) for x in sb], [list(x) for x in sc]]}
+    # masked kernel names: `kM_[N]_x` + args.fn_idx, the log lists the expanded names
+    mlog = {"rows": [{"kernel": "kM_0_x", "tag": "o:CatX", "cycles": CYC}, {"kernel": "kM_1_x", "tag": "o:CatY_fp16", "cycles": 2 * CYC},
+                     {"kernel": "kM_2_x", "tag": "na", "cycles": CYC // 2}, {"kernel": "kB", "tag": "o:CatX", "cycles": CYC}]}
+    letters = [["kM_[N]_x", "3", "5", d, f] for d in ("8", "2")
+               for f in (None, ["i", 0], ["i", 1], ["i", 2], ["s", "0"], ["i", 5])] + [["kM_0_x", "3", "5", "8", None]]
+    for L in range(1, 3):
+        for seq in itertools.product(letters, repeat=L):
+            n += 1
+            yield {"soc": 512, "core": 1024, "argv": [], "dev_epochs": [512 * 7], "log": mlog,
+                   "ranks": [[[x for x in k if x is not None] if k[4] is None else list(k) for k in seq]]}
     ctx.extra["grid_cases"] = n
 
 
@@ -520,12 +559,27 @@ def rand_case(ctx: Ctx, i):
     log = {"rows": rows, "phase": rng.choice([None, None, "PREFILL", "DECODING"]), "total_tabs": rng.random() < 0.5}
     R = rng.choice([1, 1, 2, 3])
     evnames = names + [rng.choice(KNAMES)]
+    masked = None
+    if rng.random() < 0.35:
+        # a family of kernels that the trace names `<base>_[N]_<tail>` with args.fn_idx
+        base, tail = rng.choice(["alpha", "mm", "layer-7"]), rng.choice(["mm", "x", "MatMul"])
+        masked = f"{base}_[N]_{tail}"
+        for idx in rng.sample([0, 1, 2, 3], rng.randint(1, 3)):
+            rows.insert(rng.randrange(len(rows) + 1), {"kernel": f"{base}_{idx}_{tail}", "tag": "o:" + rng.choice(CATS),
+                                                       "cycles": 64 * rng.randint(1, 600), "pad": 4, "trail": 0})
     ranks = []
     for _ in range(R):
         ks = []
         for _ in range(rng.randint(0, 10)):
             ks.append([rng.choice(evnames), rat(F(rng.randint(4, 40), 4)), rat(F(rng.randint(4, 40), 4)),
                        rat(F(rng.choice([4, 8, 16, 64, 250, rng.randint(1, 2000)]), 4))])
+            if masked and rng.random() < 0.5:
+                ks[-1][0] = masked
+                f = rng.choice([None, ["i", 0], ["i", 0], ["i", 1], ["i", 2], ["i", 3], ["s", "0"], ["s", "1"], ["i", 7]])
+                if f:
+                    ks[-1].append(f)
+            elif rng.random() < 0.05:
+                ks[-1].append(["i", 0])             # fn_idx on a name without [N]: no effect
         ranks.append(ks)
     return {"soc": rng.choice([256, 512, 1024]), "core": rng.choice([512, 1024, 1024, 2048, 1100, 800]),
             "argv": ARGVS[i % len(ARGVS)], "dev_epochs": [rng.randrange(0, 1 << 32, 1024) for _ in range(R)],
@@ -571,6 +625,9 @@ def run(ctx: Ctx):
         ctx.count("slices_with_pt_active", sum(1 for s in ks if s["pt"] is not None))
         ctx.count("slices_capped_at_100", sum(1 for s in ks if s["pt"] == 1))
         ctx.count("slices_without_pt_active", sum(1 for s in ks if s["pt"] is None))
+        ctx.count("masked_slices_with_fn_idx", sum(1 for s in ks if "[N]" in s["name"] and s["fn"] is not None))
+        ctx.count("masked_slices_with_int_fn_idx_0", sum(1 for s in ks if "[N]" in s["name"] and s["fn"] == ["i", 0]))
+        ctx.count("masked_slices_without_fn_idx", sum(1 for s in ks if "[N]" in s["name"] and s["fn"] is None))
         ctx.count("csv_rows", len(res["rows"] or []))
         ctx.count("cases_several_ranks", int(len(case["ranks"]) > 1))
         ctx.count("cases_non_dyadic_core", int(not _dyadic(case["core"])))
